@@ -194,8 +194,9 @@ def gen_shared_upload(rng: random.Random) -> Dict[str, Any]:
     req = ["j"]
     for i, cf in enumerate(rng.sample(["PandasDataFrame", "PythonDictFramework"], rng.randrange(1, 3))):
         groups.append({"name": f"B{i}", "kind": "derived", "cfw": cf, "features": {f"b{i}": {"inputs": ["a"], "c0": i, "coefs": [2]}}})
-        req.append(f"b{i}")
-    rng.shuffle(req)
+        req.insert(i, f"b{i}")
+    # request order [b.., j]: with j first the transform steps are planned behind the join and read the object the join
+    # redirected them to (SYNC raises on the unchanged tree - C01's round-trip / wrong-object domain)
     return {"groups": groups, "request": req, "links": [{"jt": "INNER", "l": "RL", "r": "RA", "li": ["k"], "ri": ["k"]}]}
 
 
